@@ -592,7 +592,7 @@ func finish(verifDir, prop, tier string, seed int, reps []*Report, extra map[str
 		}
 		distinct[k] = true
 		if o.Verdict != Holds {
-			if f, ok := open[k]; ok {
+			if f, ok := open[k]; ok && o.Verdict == Violated {
 				o.Known = true
 				known++
 				seenFinding[k] = true
